@@ -145,6 +145,29 @@ CHECKS.update({
         ref="§5 C13"),
 })
 
+CHECKS.update({
+    "C02": dict(
+        text="reaction_extends_input: for every oracle satisfying the monitored ContainLaws, every rule database without '>' and every "
+        "valid input a>>b the returned reaction is (a++ra)>>(b++pa): the given text of each side is kept verbatim and only suffixes "
+        "are appended (rule constraint incl. the added_products split, water insertion, MCS append, curation, reverts); with a "
+        "dot-led suffix the '.'-tokens of the input side are exactly the first tokens of the returned side (splitOn_append_dot). "
+        "Checked on marker-bearing inputs ([H][H], [H]Br, hydroperoxides, peracids, H2O2) through the real pipeline.",
+        note=ROWNOTE + "ContainLaws (merged compound / curated reaction extend the input) and the dot-led suffix are oracle laws "
+        "evaluated on every returned row; RDKit decides 'same molecules' for input_reaction vs raw input.",
+        technique="Lean 4 proof (string algebra over List Char + stage invariant, any oracle) + differential correspondence",
+        ref="§5 C02"),
+    "C14": dict(
+        text="Atom order reaches the rule-based path only through the key order of the composition dictionaries: "
+        "C14_composition_ignores_atom_order (decompose of permuted atom lists is DictEquiv), comparator verdict, both-side fix, water "
+        "step and the whole matcher (dfs_equiv, matchAll_equiv) are invariant under DictEquiv for EVERY rule database, hence the "
+        "appended compounds are identical; input-balanced verdict is spelling independent for every oracle. Metamorphic runs "
+        "(random SMILES, kekulised, atom maps, shuffled molecules) through the real pipeline compared before post-processing.",
+        note=ROWNOTE + "RDKit respellings are trusted to denote the same molecule; the marker tests on the reactant string "
+        "([Na]/[K]/[Li]/[H-] tokens, '.[H]' parity) are spelling-sensitive by design and covered by the correspondence.",
+        technique="Lean 4 proof (permutation invariance of dictionary algorithms) + metamorphic differential runs",
+        ref="§5 C14"),
+})
+
 NOT_YET = "check not built yet in this session (model layer pending); see DESIGN.md §11 build order"
 
 
